@@ -18,11 +18,12 @@ import (
 
 // Input is the replayable description of one case (exactly one member is set).
 type Input struct {
-	Part string     `json:"part"`
-	HTTP *HttpInput `json:"http,omitempty"`
-	Dial *DialInput `json:"dial,omitempty"`
-	Raw  *RawInput  `json:"raw,omitempty"`
-	SSH  *SSHInput  `json:"ssh,omitempty"`
+	Part   string       `json:"part"`
+	HTTP   *HttpInput   `json:"http,omitempty"`
+	Dial   *DialInput   `json:"dial,omitempty"`
+	Raw    *RawInput    `json:"raw,omitempty"`
+	SSH    *SSHInput    `json:"ssh,omitempty"`
+	Duplex *DuplexInput `json:"duplex,omitempty"`
 }
 
 type env struct {
@@ -147,6 +148,9 @@ func main() {
 	if replay == nil || replay.Part == "raw" {
 		runRawPart(o, r, e, replay)
 	}
+	if replay == nil || replay.Part == "duplex" {
+		runDuplexPart(o, r, e, replay)
+	}
 	if replay == nil || replay.Part == "ssh" {
 		runSSHPart(o, r, e, replay)
 	}
@@ -201,7 +205,7 @@ func runHTTPPart(o hx.Opts, r *hx.Rand, e *env, replay *Input) {
 			}
 			dist["stream-size:"+sizeClass(tot)]++
 			inp := in
-			cases = append(cases, hx.Case{ID: k, Kind: "http-" + in.Class, Input: Input{Part: "http", HTTP: &inp}, Obs: obs[k-i], Crash: crash[k-i],
+			cases = append(cases, hx.Case{ID: k, Kind: httpKind(in), Input: Input{Part: "http", HTTP: &inp}, Obs: obs[k-i], Crash: crash[k-i],
 				Coq: coqHTTPCase(k, in, obs[k-i])})
 		}
 		i = j
@@ -278,6 +282,15 @@ func genHTTPInputs(o hx.Opts, r *hx.Rand) []HttpInput {
 		add(in)
 	}
 	group++
+	for i := 0; i < nMal/2+2; i++ {
+		in := genHalfClose(r, id(), i)
+		in.Group = group
+		if i%3 == 2 {
+			group++
+		}
+		add(in)
+	}
+	group++
 	for i := 0; i < nMal/2; i++ {
 		in := genOversend(r, id())
 		in.Group = group
@@ -317,4 +330,16 @@ func corpusPipelinedOneWrite(id string) HttpInput {
 	b := []byte("GET /second HTTP/1.1\r\nHost: example.com\r\nUser-Agent: curl/7.58.0\r\n" + markerHeader + ": " + id + "\r\n\r\n")
 	rep := HReply{Raw: []byte("HTTP/1.1 200 OK\r\nContent-Length: 2\r\n\r\nok"), Cuts: []int{39}}
 	return HttpInput{Class: "pipelined", Msgs: []hx.B{a, b}, Items: []Item{{Seg: len(a) + len(b)}, {Wait: 2}}, Replies: []HReply{rep, rep}}
+}
+
+// httpKind: the case kind (known findings are limited to kinds); a half-closing client is a
+// lock-step or pipelining client that shuts its sending side down early.
+func httpKind(in HttpInput) string {
+	if in.Class == "halfclose" {
+		if len(in.Msgs) > 1 {
+			return "http-pipelined"
+		}
+		return "http-lockstep"
+	}
+	return "http-" + in.Class
 }
